@@ -108,7 +108,7 @@ def consumeHs (s : Screen) (c : Conn) (fuel : Nat) : Conn × List String :=
       else (c', line :: s!"!ORACLE {c.id} ServerInit does not report the real screen: real {s.w}x{s.h} pf={hex s.pf} name={hex want.name}" :: out)
 
 /-- handle the messages of the normal phase that sit in the connection's buffer -/
-def consumeNormal (c : Conn) : Conn × List String := Id.run do
+def consumeNormal (view : Nat × Nat) (c : Conn) : Conn × List String := Id.run do
   if c.buf.isEmpty then return (c, [])
   let (ms, err) := match parseAll c.pctx c.buf with
     | .ok ms => (ms, none)
@@ -126,7 +126,11 @@ def consumeNormal (c : Conn) : Conn × List String := Id.run do
         | _ => false
       if sizeOnly then
         match rs with
-        | [r] => c := { c with annW := r.hdr.w, annH := r.hdr.h }
+        | [r] =>
+          -- rfbSendNewFBSize / rfbSendExtDesktopSize(cl, cl->scaledScreen->width, cl->scaledScreen->height)
+          if (r.hdr.w, r.hdr.h) ≠ view then
+            out := out ++ [s!"!EXACT {c.id} size announcement {r.hdr.w}x{r.hdr.h}, the client's view of the screen is {view.1}x{view.2}"]
+          c := { c with annW := r.hdr.w, annH := r.hdr.h }
         | _ => pure ()
       else
         match c.preds with
@@ -136,8 +140,14 @@ def consumeNormal (c : Conn) : Conn × List String := Id.run do
           match checkPred p n rs with
           | none => pure ()
           | some e => out := out ++ [s!"!EXACT {c.id} {e}"]
-    | .resizeFB _ w h => c := { c with annW := w, annH := h }
-    | .palmResize _ _ _ bw bh _ => c := { c with annW := bw, annH := bh }
+    | .resizeFB _ w h =>
+      if (w, h) ≠ view then
+        out := out ++ [s!"!EXACT {c.id} ResizeFrameBuffer {w}x{h}, the client's view of the screen is {view.1}x{view.2}"]
+      c := { c with annW := w, annH := h }
+    | .palmResize _ _ _ bw bh _ =>
+      if (bw, bh) ≠ view then
+        out := out ++ [s!"!EXACT {c.id} PalmVNC resize buffer {bw}x{bh}, the client's view of the screen is {view.1}x{view.2}"]
+      c := { c with annW := bw, annH := bh }
     | _ => pure ()
   match err with
   | none => c := { c with buf := [] }
@@ -150,7 +160,7 @@ def consume (s : Screen) (c : Conn) : Conn × List String :=
   let (c1, o1) := consumeHs s c (c.expectHs.length + 1)
   if !c1.expectHs.isEmpty then (c1, o1)
   else if c1.phase == .normal then
-    let (c2, o2) := consumeNormal c1
+    let (c2, o2) := consumeNormal (c1.viewSize s) c1
     (c2, o1 ++ o2)
   else if c1.phase == .closed then ({ c1 with buf := [] }, o1)
   else if c1.buf.isEmpty then (c1, o1)
